@@ -29,16 +29,21 @@ type c15Case struct {
 	ReqMode  memhttp.ReqMode `json:"req_mode"`
 	Client   string          `json:"client"`   // word over S Q R P (bidi); fixed programs for the other kinds
 	Deadline bool            `json:"deadline"` // expiry instead of cancel()
-	HRecv    int             `json:"hrecv"`
-	HSend    int             `json:"hsend"`
-	Bound    int             `json:"bound"`
-	Prefix   []int           `json:"prefix,omitempty"`
+	// Cause: the context is cancelled / expires with a caller-supplied cause (context.WithCancelCause, WithTimeoutCause); ctx.Err() is still Canceled / DeadlineExceeded.
+	Cause  bool  `json:"cause,omitempty"`
+	HRecv  int   `json:"hrecv"`
+	HSend  int   `json:"hsend"`
+	Bound  int   `json:"bound"`
+	Prefix []int `json:"prefix,omitempty"`
 }
 
 func (k c15Case) key() string {
 	x := "cancel"
 	if k.Deadline {
 		x = "deadline"
+	}
+	if k.Cause {
+		x += "+cause"
 	}
 	return fmt.Sprintf("%s/%s/%s/%s/%s/r%ds%d/d%d", k.Proto, k.Kind, k.ReqMode, k.Client, x, k.HRecv, k.HSend, k.Bound)
 }
@@ -121,11 +126,25 @@ func c15Body(k c15Case, s *bsched.Sched) any {
 	cl := NewClient(tr, Cfg{Proto: k.Proto, Comp: CompNone})
 	var ctx context.Context
 	var cancel context.CancelFunc
-	if k.Deadline {
+	custom := errors.New("caller-supplied cause")
+	switch {
+	case k.Deadline && k.Cause:
+		ctx, cancel = context.WithTimeoutCause(context.Background(), c15Deadline, custom)
+		s.ArmClock(c15Deadline)
+		s.AfterClock = func() { obs.XDone = tick() }
+	case k.Deadline:
 		ctx, cancel = context.WithTimeout(context.Background(), c15Deadline)
 		s.ArmClock(c15Deadline)
 		s.AfterClock = func() { obs.XDone = tick() }
-	} else {
+	case k.Cause:
+		var cancelCause context.CancelCauseFunc
+		ctx, cancelCause = context.WithCancelCause(context.Background())
+		cancel = func() { cancelCause(nil) }
+		s.Go("~x", func() {
+			cancelCause(custom)
+			obs.XDone = tick()
+		})
+	default:
 		ctx, cancel = context.WithCancel(context.Background())
 		s.Go("~x", func() {
 			cancel()
@@ -329,6 +348,9 @@ func c15Cases(thorough bool) []c15Case {
 					for _, hs := range []int{0, 1} {
 						for _, w := range words {
 							out = append(out, c15Case{Proto: p, Kind: KBidi, ReqMode: m, Client: w, Deadline: dl, HRecv: hr, HSend: hs, Bound: bound})
+							if m == memhttp.ReqEager && hr == 0 && (len(w) <= 2 || thorough) {
+								out = append(out, c15Case{Proto: p, Kind: KBidi, ReqMode: m, Client: w, Deadline: dl, Cause: true, HRecv: hr, HSend: hs, Bound: bound})
+							}
 						}
 						if m == memhttp.ReqEager || thorough {
 							for _, kind := range []Kind{KUnary, KClient, KServer} {
@@ -452,7 +474,7 @@ func c15Sequential(t *testing.T, c *ev.Collector) {
 func TestC15(t *testing.T) {
 	c := ev.New("C15")
 	defer func() { _ = c.Finish() }()
-	c.SetRule("stateless model checking under the controlled scheduler: client programs over {Send,CloseRequest,Receive,CloseResponse} (bidi) and the Call* wrappers (other kinds) x {cancel(), deadline expiry on the fake clock} x handler {receive i, send j, wait for ctx.Done, return ctx.Err} x protocols x request windows; the cancellation / expiry event is placed at every yield point (delay bound: see bounds), including while Send/Receive are blocked; plus the sequential family: handlers returning bare or wrapped context errors; a scenario is distinct by its full parameter tuple")
+	c.SetRule("stateless model checking under the controlled scheduler: client programs over {Send,CloseRequest,Receive,CloseResponse} (bidi) and the Call* wrappers (other kinds) x {cancel(), deadline expiry on the fake clock, each also with a caller-supplied cause} x handler {receive i, send j, wait for ctx.Done, return ctx.Err} x protocols x request windows; the cancellation / expiry event is placed at every yield point (delay bound: see bounds), including while Send/Receive are blocked; plus the sequential family: handlers returning bare or wrapped context errors; a scenario is distinct by its full parameter tuple")
 	c.Assume("memhttp models net/http's behaviour on context cancellation (Do and body reads fail with ctx.Err(), request body closed, server context cancelled)",
 		"testing/synctest fake clock: context deadlines fire exactly when the ~clock event lets time advance")
 	if ev.ReplayFile() != "" {
